@@ -19,6 +19,7 @@ from . import common
 
 KEY_ZERO_TAKE = "poulpy-cpu-ref/src/hal_defaults/scratch.rs:take_slice_aligned:zero-length-take:aligned_offset>len"
 KEY_DEALLOC = "poulpy-hal/src/lib.rs:alloc_aligned_custom_u8:dealloc-layout"
+KEY_CNV_COL = "poulpy-cpu-ref/src/reference/fft64/convolution.rs:convolution_by_const_apply+convolution_apply_dft:column-index-unchecked"
 U64 = 1 << 64
 
 
@@ -95,6 +96,7 @@ def run(ctx):
         broken.append("harness build failed: " + getattr(ctx, "build_error", "")[-400:])
 
     canary_lines = []
+    asan_extra = []          # admissible kernel-footprint calls, re-run under ASan in the thorough tier (reads)
     if drv is not None and binp is not None:
         # ---- histories
         nh = 1500 if quick else 40000
@@ -196,6 +198,67 @@ def run(ctx):
                 ctx.oracle_failures += 1
                 oracle_fail.append({"case": l, "impl": a, "why": "a trait at(i,j)/raw() slice of a prepared layout lies outside its buffer"})
         ctx.cov["prepared_layout_cases"] = len(pl)
+        # ---- kernels with non-trivial addressing through the HAL API: footprint recorder (two pre-fills of a canary-framed
+        #      result: written elements + untouched frame) vs the model's write set (Model/Kernels.lean); the inadmissible
+        #      column indices that the FFT64 convolution entry points do not check are the `inb=0` cases of the model
+        kl = []
+        for be in ("fft64ref", "fft64avx", "ntt120ref", "ntt120avx"):
+            for n in (8, 16):
+                for (rc, rs, rcol) in ((1, 1, 0), (2, 2, 1), (2, 3, 0), (1, 5, 0)):
+                    for (ac, asz, acol) in ((1, 1, 0), (2, 2, 1), (1, 3, 0)):
+                        for bs in (1, 2, 4):
+                            for off in (0, 1, 3):
+                                kl.append((be, "cnvconst", [n, rc, rs, rcol, ac, asz, acol, bs, off], True))
+                        for (bc, bsz, bcol) in ((1, 1, 0), (2, 3, 1)):
+                            for off in (0, 2):
+                                kl.append((be, "cnvapply", [n, rc, rs, rcol, ac, asz, acol, bc, bsz, bcol, off], True))
+                for (rows, ci, co, sz) in ((2, 1, 1, 1), (3, 2, 1, 2), (2, 1, 2, 3), (4, 1, 5, 1), (1, 2, 3, 1)):
+                    for asz in (1, rows, rows + 1):
+                        for rsz in (1, sz, sz + 2):
+                            for lo in (0, 1, 2):
+                                kl.append((be, "vmpapply", [n, rows, ci, co, sz, asz, rsz, lo], True))
+            # column index one past the end (not an admissible argument; the entry points must reject it)
+            for pp in ([8, 1, 1, 1, 1, 1, 0, 1, 0], [8, 1, 2, 1, 1, 2, 0, 2, 0], [16, 2, 2, 2, 1, 2, 0, 1, 0], [8, 1, 1, 0, 1, 1, 1, 1, 0]):
+                kl.append((be, "cnvconst", pp, False))
+            for pp in ([8, 1, 1, 0, 1, 1, 1, 1, 1, 0, 0], [8, 1, 1, 0, 1, 1, 0, 1, 1, 1, 0], [16, 2, 3, 1, 2, 2, 2, 1, 2, 0, 1]):
+                kl.append((be, "cnvapply", pp, False))
+        klines = [f"{i} kern be={be} op={op} p={','.join(map(str, pp))}" for i, (be, op, pp, adm) in enumerate(kl)]
+        rc_, kout, _ = ctx.run_lines(binp, ["layout"], klines)
+        rc_, kmod, _ = ctx.run_lines(drv, [], [f"{i} layout kern op={op} p={','.join(map(str, pp))}" for i, (be, op, pp, adm) in enumerate(kl)])
+        if len(kout) != len(klines):
+            broken.append(f"harness kern run stopped after {len(kout)} of {len(klines)} (rc={rc_})")
+        cnv_col = None
+        for (be, op, pp, adm), l, a, b in zip(kl, klines, kout, kmod):
+            ctx.count_case(("kern", be, op, adm, tuple(pp[:1] + pp[-3:])))
+            at = a.split()
+            bt = dict(x.split("=", 1) for x in b.split()[1:] if "=" in x)
+            ad = dict(x.split("=", 1) for x in at[2:] if "=" in x)
+            if adm:
+                if at[1] != "ok" or ad.get("canaries") != "intact":
+                    ctx.oracle_failures += 1
+                    if len(oracle_fail) < 20:
+                        oracle_fail.append({"case": l, "impl": a, "why": "admissible HAL call panicked or wrote outside its result buffer"})
+                    continue
+                if bt.get("inb") != "1":
+                    ctx.disagreements += 1
+                    disagree.append({"case": l, "model": b, "why": "model footprint not in bounds for an admissible call"})
+                if be.startswith("fft64") and ad.get("W") != bt.get("W"):
+                    ctx.disagreements += 1
+                    if len(disagree) < 10:
+                        disagree.append({"case": l, "model": b, "impl": a, "why": "written elements differ from the model's write set"})
+            else:
+                # inadmissible column: the only acceptable behaviour is a panic; the model of the shipped code says out of bounds
+                if be.startswith("fft64") and bt.get("inb") != "0":
+                    ctx.disagreements += 1
+                    disagree.append({"case": l, "model": b, "why": "model does not see the unchecked column"})
+                if at[1] == "ok":
+                    cnv_col = cnv_col or {"case": l, "impl": a, "model": b,
+                                          "meaning": "canaries=broken:K = first byte modified K bytes after the start of the result buffer (outside it); ok with an out-of-range a_col/b_col = silent out-of-bounds read"}
+        ctx.cov["kernel_footprint_cases"] = len(kl)
+        asan_extra = [l for (be, op, pp, adm), l in zip(kl, klines) if adm]
+        if cnv_col:
+            ctx.violation("FFT64 convolution entry points do not check the column indices: out-of-bounds write (cnv_by_const_apply, AVX) / read (cnv_apply_dft)",
+                          {"key": KEY_CNV_COL, "witness": cnv_col}, True, key=KEY_CNV_COL)
         # ---- canaries
         for be in ("fft64ref", "ntt120ref", "fft64avx", "ntt120avx"):
             for n in (2, 4, 8, 16):
@@ -234,7 +297,7 @@ def run(ctx):
         if asan_ok:
             ab = os.path.join(common.HARNESS, "target-asan", "x86_64-unknown-linux-gnu", "release", "pvh")
             env2 = dict(common.ENV, ASAN_OPTIONS="detect_leaks=0:abort_on_error=0:alloc_dealloc_mismatch=0")
-            p = subprocess.run([ab, "layout"], input="\n".join(canary_lines) + "\n", capture_output=True, text=True, env=env2)
+            p = subprocess.run([ab, "layout"], input="\n".join(canary_lines + asan_extra) + "\n", capture_output=True, text=True, env=env2)
             rep = re.findall(r"ERROR: AddressSanitizer: (\S+)", p.stderr)
             ctx.cov["asan_reports"] = rep[:10]
             ctx.cov["asan_cases"] = len(p.stdout.split("\n")) - 1
